@@ -15,8 +15,13 @@ def write(prop, tier, seed, records, wall_s, violations, assumptions, explanatio
     nontrivial = 0
     for r in records:
         evaluations += int(r.get("paths") or 0) + int(r.get("queries") or 0)
-        if r.get("twin") == "reachable" or (r.get("paths") or 0) >= 2 or (r.get("sat", 0) + r.get("unsat", 0)) >= 2:
-            nontrivial += 1
+        if r.get("engine") == "CH":
+            if r.get("twin") == "reachable" or (r.get("paths") or 0) >= 2:
+                nontrivial += 1
+        else:
+            # SX/KX: every case (one solver question with its own bounds) that reached its assertion
+            nontrivial += sum(1 for c in r.get("case_results", []) if c.get("sample") is not None) or (
+                1 if r.get("twin") == "reachable" else 0)
     samples = []
     for r in records[:]:
         samples.append(dict(obligation=r["name"], engine=r["engine"], cls=r.get("class"),
@@ -28,8 +33,9 @@ def write(prop, tier, seed, records, wall_s, violations, assumptions, explanatio
         evaluations=max(evaluations, 0), distinct_nontrivial=nontrivial,
         rule=("evaluations = CrossHair path iterations + SMT queries measured in this run; an obligation "
               "counts as distinct/non-trivial when its reachability twin produced a model (the harness "
-              "reaches its assertion under its assumptions) or it explored >= 2 feasible paths / issued >= 2 "
-              "decisive solver queries"),
+              "reaches its assertion under its assumptions) or it explored >= 2 feasible paths; for SX/KX "
+              "obligations every case (a separate solver question with its own bounds) whose assertion was "
+              "reached with a satisfiable 'ok' is counted"),
         samples=samples[:40], records=records, explanation=explanation, exhaustive=False,
         solver_s=round(sum(r.get("solver_s", 0) or 0 for r in records), 2),
     )
